@@ -5,6 +5,7 @@
   of the enclosure formula for uncertain orientations is `C04_extent_*` below.
 -/
 import CRModel.Occupancy
+import CRModel.Place
 import Mathlib.Tactic.Linarith
 import Mathlib.Tactic.Ring
 import Mathlib.Algebra.Order.Field.Rat
@@ -415,6 +416,27 @@ theorem C04_enclosure : C04_enclosure_full := by
     · exact C04_extent_le_small w l |c| |s| cw sw hw hl hu' huw (abs_nonneg _) (abs_nonneg _) hcw hsw h1 h3
     · exact C04_extent_le_max w l |c| |s| cw sw hw hl hu' huw hcw hsw h
   exact C04_enclosure_box l w ls ws _ _ c s x y px py hx hy hpx hpy hextl hextw
+
+/-- The rectangle the model function `CR.Place.enclose` builds (tied to the CURRENT source of `occupancy_shape_from_state` by
+    T04 `tie_uncertain_enclosure`) has exactly the half-extents `C04_enclosure` bounds: every point of the centred `l × w` box,
+    turned by any admissible deviation and displaced within the position region, lies inside it. -/
+theorem C04_enclose_encloses (l w ls ws c s cl sl cw sw x y px py psi : Rat) (ctr : CR.Rigid.Pt)
+    (hl : 0 ≤ l) (hw : 0 ≤ w) (hx : |x| ≤ l / 2) (hy : |y| ≤ w / 2) (hpx : |px| ≤ ls / 2) (hpy : |py| ≤ ws / 2)
+    (hu : c * c + s * s = 1) (hul : cl * cl + sl * sl = 1) (hcl : 0 ≤ cl) (hsl : 0 ≤ sl)
+    (huw : cw * cw + sw * sw = 1) (hcw : 0 ≤ cw) (hsw : 0 ≤ sw)
+    (hcaseL : (|s| ≤ sl ∧ l * sl ≤ w * cl) ∨ l * sl = w * cl)
+    (hcaseW : (|s| ≤ sw ∧ w * sw ≤ l * cw) ∨ w * sw = l * cw) :
+    ∃ L W, CR.Place.enclose cl sl cw sw l w ls ws ctr psi = .rect L W ctr psi ∧
+      |px + (c * x - s * y)| ≤ L / 2 ∧ |py + (s * x + c * y)| ≤ W / 2 := by
+  have habs : ∀ z : Rat, CR.Place.absQ z = |z| := by
+    intro z
+    unfold CR.Place.absQ
+    split
+    · rename_i h; rw [abs_of_neg h]
+    · rename_i h; rw [abs_of_nonneg (not_lt.1 h)]
+  refine ⟨_, _, rfl, ?_⟩
+  rw [habs, habs]
+  exact C04_enclosure l w ls ws c s cl sl cw sw x y px py hl hw hx hy hpx hpy hu hul hcl hsl huw hcw hsw hcaseL hcaseW
 
 /-! What is NOT proved: that shapely's `bounds` of a polygon / rotated position region bound it (GEOS), and the
     trigonometric facts tying `(c, s, cl, sl, cw, sw)` to angles (`cos`, `sin`, `arctan`, `min`, monotonicity of sine on
